@@ -23,8 +23,10 @@ from pv.codec import build, Env, token, vtoken, s_scalar, s_dt, S_INTS, S_FLOATS
 
 ASSUMPTIONS = [
     'cells are None, ints, finite floats, strings, datetimes (no NaN: NaN key identity is C02 territory; no bools; no +-inf)',
-    'ints stay far below 2**53 in absolute value: cmp() compares ints after float(), so distinct ints >= 2**53 (2**53 and 2**53+1) are ONE key for '
-    '_listby - candidate defect, reported and kept as replays/C11/candidate-bigint-keys-merged.json.pending, excluded by construction',
+    'ints include 2**53, 2**53+1 and -(2**53)-1 next to float(2**53) in a share of the key columns: int/float key equality of the model is exact '
+    '(python ==), so 2**53 and float(2**53) are one key and 2**53+1 is another (F19: cmp used to compare ints after float())',
+    'a dedicated share of tables has 200/256/300 rows, ONE key column of 2-5 distinct ints and/or floats and a non-key column with a distinct int per row '
+    '(the place where a vectorised numeric grouping path would live)',
     'large tables (64/65/100/128/200 rows; wide pivots of 24-200 rows with 20-30 labels) are a pattern of 2-9 generated rows repeated ("tiled": interleaved, '
     '"blocks": equal keys adjacent) with a distinct int per row in one non-key column, so keys are few and groups are big; about 1-3% of the cases',
     'the table a regrouping is called on must still hold the same cells afterwards, and calling the inverse (unlist / ungroup / unpivot) a second time '
@@ -160,7 +162,7 @@ def _expand(spec):
     src = [i % m for i in range(n)] if tile['layout'] == 'tiled' else [i * m // n for i in range(n)]
     data = {c: [spec['data'][c][j] for j in src] for c in cols}
     for c in tile.get('pos', []):
-        data[c] = [(i * 37 + 11) % 257 for i in range(n)]            # distinct for n < 257, not monotone
+        data[c] = [(i * 37 + 11) % 509 for i in range(n)]            # distinct for n < 509, not monotone
     wide = tile.get('wide')
     if wide:
         data[wide['col']] = [_wide_label(wide['kind'], (i * 7) % wide['labels']) for i in range(n)]
@@ -249,6 +251,11 @@ def _key_classes(spec, by):
         cls.append('mixed_type_key')
     if any(v is None for c in by for v in spec['data'][c]):
         cls.append('none_key')
+    bigs = set(repr(v) for c in by for v in spec['data'][c] if isinstance(v, (int, float)) and not isinstance(v, bool) and abs(v) >= 2 ** 53)
+    if bigs:
+        cls.append('bigint_key')
+        if len(bigs) >= 3:
+            cls.append('bigint_key_3_spellings')     # e.g. 2**53, float(2**53) (one key) and 2**53+1 (another key)
     if any(v is None or (isinstance(v, (int, float, str)) and not v) for c in by for v in spec['data'][c]):
         cls.append('falsy_key')          # None, 0, 0.0, '' as a key cell
     return sorted(set(cls)), mixed
@@ -260,8 +267,10 @@ _S = s_scalar()                                # None, ints -3..6, 5 floats, 5 s
 _TWINS = st.sampled_from([1, 1.0, 2, 2.0, 0, 0.0, 2.5])
 
 
+_BIG = [2 ** 53, 2 ** 53 + 1, float(2 ** 53), -(2 ** 53) - 1]      # float() merges the first three; exact comparison does not
 _HOMOG = [st.integers(0, 2), st.sampled_from(['a', 'b', 'ab']), _TWINS, s_dt(3),
-          st.one_of(st.none(), st.integers(0, 1)), st.one_of(st.sampled_from(['a', 'b']), st.integers(0, 1))]
+          st.one_of(st.none(), st.integers(0, 1)), st.one_of(st.sampled_from(['a', 'b']), st.integers(0, 1)),
+          st.sampled_from(_BIG), st.sampled_from(_BIG + [0, None, 'a'])]
 
 
 def _cells(draw, key_like):
@@ -289,6 +298,30 @@ def _lottery(content, k):
     return zlib.crc32(json.dumps(content, sort_keys=True).encode()) % k
 
 
+_NUM_N = [200, 256, 300]
+_NUM_UNIVERSE = {'ints': [-3, -1, 0, 1, 2, 3, 5, 6], 'floats': [-1.5, 0.0, 1.0, 2.0, 2.5], 'ints_and_floats': [0, 1, 2, 5, -1.5, 2.5, 0.5]}
+
+
+def _numeric_key_pattern(draw):
+    """a pattern column of 2-9 cells holding 2-5 distinct ints and/or floats (every value at least once), in drawn order"""
+    kind = draw(st.sampled_from(['ints', 'floats', 'ints_and_floats']))
+    vals = draw(st.lists(st.sampled_from(_NUM_UNIVERSE[kind]), min_size=2, max_size=5, unique=True))
+    more = draw(st.lists(st.sampled_from(vals), max_size=9 - len(vals)))
+    if kind == 'ints_and_floats':
+        more = [float(v) if isinstance(v, int) and draw(st.booleans()) else v for v in more]     # the float spelling of an int key: same key
+    return list(draw(st.permutations(vals + more)))
+
+
+def _numeric200(draw, spec, key, pos_col):
+    """turns a drawn case into the dedicated class: 200/256/300 rows, ONE purely numeric key column with 2-5 distinct values, a distinct int per row in pos_col"""
+    pattern = _numeric_key_pattern(draw)
+    m = len(pattern)
+    old = spec['data']
+    spec['data'] = {c: (pattern if c == key else [old[c][i % len(old[c])] for i in range(m)]) for c in spec['cols']}
+    spec['tile'] = dict(n=draw(st.sampled_from(_NUM_N)), layout=draw(st.sampled_from(['tiled', 'tiled', 'blocks'])), pos=[pos_col])
+    return spec
+
+
 def _rows(draw, strategies, lo, top):
     """a list of rows (so that rows are what shrinks away), returned as columns; None strategy = distinct scrambled ints"""
     n_min = draw(st.sampled_from([3, 6, 2, lo]))          # hypothesis favours (and shrinks to) the first choice: make that a useful size
@@ -314,10 +347,15 @@ def _regroup_case(draw, tier, with_grp=False):
     strategies = [_cells(draw, c in by) for c in cols]
     columns = _rows(draw, strategies, 0, top)
     spec = dict(cols=cols, data=dict(zip(cols, columns)), by=by, form=draw(st.sampled_from(['names', 'list'])))
-    if _lottery(columns, 20) == 3 and len(columns[0]) >= 2:
+    lot = _lottery(columns, 40) if len(columns[0]) >= 2 else -1
+    if lot == 3:
         # a LARGE table with few distinct keys (big groups): the pattern drawn above blown up to 64..200 rows (see _expand)
         spec['tile'] = dict(n=draw(st.sampled_from(_LARGE_N)), layout=draw(st.sampled_from(['tiled', 'blocks'])),
                             pos=[c for c, s in zip(cols, strategies) if s is None] or [[c for c in cols if c not in by][0]])
+    elif lot in (7, 27):
+        # the dedicated class: >= 200 rows grouped on ONE purely numeric key column
+        spec['by'] = by[:1]
+        _numeric200(draw, spec, by[0], [c for c in cols if c not in by][0])
     if with_grp:
         spec['grp'] = draw(st.sampled_from(['grp', 'grp', 'g']))
     return spec
@@ -330,6 +368,8 @@ def _shape_classes(spec, n, cols, by, data, ordered_groups):
         cls.append('one_row')
     if n >= 64:
         cls += ['rows>=64', 'rows=%i' % n, 'large_' + spec['tile']['layout'], 'biggest_group>=%i' % (16 if max(len(g[1]) for g in ordered_groups) >= 16 else 2)]
+    if n >= 200 and len(by) == 1 and all(_isnum(v) for v in data[by[0]]) and len(ordered_groups) >= 2:
+        cls.append('rows>=200_single_numeric_key')
     if len(by) >= 2 and [c for c in cols if c in by] != list(by):
         cls.append('by_not_in_column_order')
     if ordered_groups and len(ordered_groups) >= 2:
@@ -500,7 +540,7 @@ def run_groupby(spec):
 
 _Y_KINDS = {
     'str': S_STRS,
-    'int': S_INTS,
+    'int': st.one_of(S_INTS, S_INTS, st.sampled_from([2 ** 53, 2 ** 53 + 1, -(2 ** 53) - 1])),
     'dt': s_dt(4),
     'float': S_FLOATS,
     'mixed': st.one_of(st.sampled_from(['a', 'b', '']), st.integers(0, 2), s_dt(2)),
@@ -547,11 +587,17 @@ def _pivot_case(draw, tier):
     spec = dict(cols=order, data={c: data[c] for c in order}, x=x, xform=draw(st.sampled_from(['str', 'list'])) if nx == 1 else 'list',
                 y=y, z=z, agg=agg, ykind=ykind, method=draw(st.sampled_from(['xyz', 'pivot'])),
                 aggform=draw(st.sampled_from(['fn', 'fn', 'list1', 'list2'])))
-    size = _lottery(data, 20) + 20
-    if size in (23, 31) and len(data[y]) >= 2:
+    size = (_lottery(data, 40) if len(data[y]) >= 2 else -1) + 20
+    if size in (27, 47):
+        # the dedicated class: >= 200 rows, ONE purely numeric x column, the z column numbers the rows, the aggregator keeps the order visible
+        spec['x'], spec['xform'] = x[:1], draw(st.sampled_from(['str', 'list']))
+        if agg in ('sum', 'len'):
+            spec['agg'] = draw(st.sampled_from(['none', 'tuple', 'last']))
+        _numeric200(draw, spec, x[0], z)
+    elif size in (23, 31, 51):
         # 23: a LARGE table (the pattern blown up, see _expand); 31: a WIDE one, whose y column cycles through 20-30 labels
         tile = dict(n=draw(st.sampled_from(_LARGE_N)), layout=draw(st.sampled_from(['tiled', 'blocks'])), pos=[] if agg == 'sum' else [z])
-        if size == 31:
+        if size in (31, 51):
             tile['n'] = draw(st.sampled_from(_WIDE_N))
             tile['wide'] = dict(col=y, labels=draw(st.integers(20, 30)), kind=draw(st.sampled_from(['int', 'str', 'mixed'])))
             spec['ykind'] = tile['wide']['kind']
@@ -674,6 +720,8 @@ def run_pivot(spec):
         cls.append('one_row')
     if n >= 64:
         cls += ['rows>=64', 'large_' + spec['tile']['layout']]
+    if n >= 200 and len(x) == 1 and all(_isnum(v) for v in data[x[0]]) and len(xgroups) >= 2:
+        cls.append('rows>=200_single_numeric_key')
     if len(ygroups) >= 20:
         cls.append('labels>=20')
     if [c for c in cols if c in x] != list(x):
@@ -692,7 +740,7 @@ def _label_of(lab, yv):
 # ----------------------------------------------------------------------------- registry
 
 SUBS = [
-    Sub('listby_unlist', lambda tier: _regroup_case(tier), run_listby, quick=3000, thorough=20000,
+    Sub('listby_unlist', lambda tier: _regroup_case(tier), run_listby, quick=4000, thorough=20000,
         rule='tables of 0-9 rows x 2-4 columns (thorough: 0-14 x 2-5), cells None/ints/floats/strings/datetimes with heavy duplication in key columns '
              '(small value pools, homogeneous and mixed-type, int/float twins); keys = a non-empty proper subset in any order, as *names or one list; column names nested in each other in half of the cases; about 1.5% large tables of 64/65/100/128/200 rows with few keys. '
              'oracle: nested-loop grouping of the spec; listby has exactly one row per distinct key, other cells list the key\'s values in row order; '
@@ -700,17 +748,17 @@ SUBS = [
              'non-trivial = some key with >= 2 rows and >= 2 distinct keys',
         floor=0.2, class_floors={'mixed_type_key': 0.15, 'int_and_float_key': 0.03, 'order_visible': 0.2, 'reordered': 0.2, 'nkeys=2': 0.1, 'all_keys_unique': 0.05, 'empty': 0.005,
                                  'colname_substring_of_key': 0.08, 'colname_substring_of_single_key': 0.04, 'key_substring_of_colname': 0.08,
-                                 'rows>=64': 0.005, 'biggest_group>=16': 0.004, 'already_sorted_with_dups': 0.02, 'falsy_key': 0.3, 'none_key': 0.15, 'one_row': 0.01,
+                                 'rows>=64': 0.005, 'biggest_group>=16': 0.004, 'rows>=200_single_numeric_key': 0.0034, 'bigint_key': 0.03, 'bigint_key_3_spellings': 0.005, 'already_sorted_with_dups': 0.02, 'falsy_key': 0.3, 'none_key': 0.15, 'one_row': 0.01,
                                  'by_not_in_column_order': 0.05, 'dup_in_first_group': 0.2, 'dup_in_last_group': 0.2, 'identical_rows': 0.1}),
-    Sub('groupby_ungroup', lambda tier: _regroup_case(tier, with_grp=True), run_groupby, quick=3000, thorough=20000,
+    Sub('groupby_ungroup', lambda tier: _regroup_case(tier, with_grp=True), run_groupby, quick=4000, thorough=20000,
         rule='same tables and keys as listby_unlist, default and custom grp column name. oracle: one row per distinct key, each sub-table holds exactly '
              'the other columns of the key\'s rows in row order, sizes add up to len(d), ungroup() has the original columns and the original multiset '
              'of rows (key cells by ==, other cells by type and value). non-trivial = some key with >= 2 rows and >= 2 distinct keys',
         floor=0.2, class_floors={'mixed_type_key': 0.15, 'single_and_multi_row_groups': 0.15, 'grp=g': 0.1, 'all_keys_unique': 0.05, 'empty': 0.005,
                                  'colname_substring_of_key': 0.08, 'colname_substring_of_single_key': 0.04, 'key_substring_of_colname': 0.08,
-                                 'rows>=64': 0.005, 'biggest_group>=16': 0.004, 'falsy_key': 0.3, 'none_key': 0.15, 'one_row': 0.01,
+                                 'rows>=64': 0.005, 'biggest_group>=16': 0.004, 'rows>=200_single_numeric_key': 0.0034, 'bigint_key': 0.03, 'bigint_key_3_spellings': 0.005, 'falsy_key': 0.3, 'none_key': 0.15, 'one_row': 0.01,
                                  'by_not_in_column_order': 0.05, 'dup_in_first_group': 0.2, 'dup_in_last_group': 0.2, 'identical_rows': 0.1}),
-    Sub('pivot_unpivot', lambda tier: _pivot_case(tier), run_pivot, quick=3000, thorough=20000,
+    Sub('pivot_unpivot', lambda tier: _pivot_case(tier), run_pivot, quick=4000, thorough=20000,
         rule='non-empty tables of 1-9 rows (thorough 1-14), x = 1-2 mixed-type key columns, y = strings | ints | floats | datetimes | a mix of strings, ints and datetimes, '
              'z non-None, optional bystander column, agg in None/last/sum/len/tuple spelled as a function, [function] or [list, function], nested column names in half of the cases, 1-3% large (64-200 rows) or wide (20-30 labels) tables, a quarter of the cases with unique (x, y) pairs by construction. '
              'oracle: nested-loop model {(x key, y value): z values in row order}; pivot rows <-> distinct x keys and label columns <-> distinct y values '
@@ -718,7 +766,7 @@ SUBS = [
              'non-trivial = >= 2 x keys and >= 2 y values and (an aggregated duplicate or a None cell)',
         floor=0.2, class_floors={'dup_xy': 0.2, 'unique_xy': 0.2, 'none_cell': 0.3, 'mixed_type_key': 0.15, 'nx=2': 0.2, 'agg=none': 0.1, 'agg=last': 0.1, 'agg=sum': 0.1, 'agg=len': 0.1, 'agg=tuple': 0.1,
                                  'colname_substring_of_key': 0.08, 'key_substring_of_colname': 0.08,
-                                 'rows>=64': 0.004, 'labels>=20': 0.004, 'falsy_cell': 0.08, 'falsy_key': 0.3, 'pivot_1x1': 0.03, 'one_label': 0.1, 'one_x_key': 0.05,
+                                 'rows>=64': 0.004, 'labels>=20': 0.004, 'rows>=200_single_numeric_key': 0.0034, 'bigint_key': 0.03, 'falsy_cell': 0.08, 'falsy_key': 0.3, 'pivot_1x1': 0.03, 'one_label': 0.1, 'one_x_key': 0.05,
                                  'one_row': 0.02, 'aggform=list1': 0.1, 'aggform=list2': 0.1, 'x_not_in_column_order': 0.1,
                                  'y=str': 0.05, 'y=int': 0.05, 'y=float': 0.05, 'y=dt': 0.05, 'y=mixed': 0.1}),
 ]
